@@ -1,0 +1,49 @@
+//
+// Verification hooks (compiled in only with -DBOOST_MQTT5_VERIF).
+//
+// With the guard off this header defines BOOST_MQTT5_VERIF_EVENT(...) to
+// nothing and declares nothing else, so the library is unchanged.
+// With the guard on, BOOST_MQTT5_VERIF_EVENT(name, a, b, c, d) reports an
+// internal event to a sink installed by a test harness (a no-op while no sink
+// is installed) and `verif_probe` is befriended by a few classes so that a
+// harness can read (never write) their private state.
+//
+
+#ifndef BOOST_MQTT5_VERIF_HPP
+#define BOOST_MQTT5_VERIF_HPP
+
+#ifdef BOOST_MQTT5_VERIF
+
+namespace boost::mqtt5 {
+
+struct verif_probe;
+
+namespace verif {
+
+using sink_type = void (*)(const char* event, long a, long b, long c, long d);
+
+inline sink_type& sink() {
+    static sink_type s = nullptr;
+    return s;
+}
+
+inline void event(const char* name, long a = 0, long b = 0, long c = 0, long d = 0) {
+    if (sink())
+        sink()(name, a, b, c, d);
+}
+
+} // end namespace verif
+
+} // end namespace boost::mqtt5
+
+#define BOOST_MQTT5_VERIF_EVENT(...) ::boost::mqtt5::verif::event(__VA_ARGS__)
+#define BOOST_MQTT5_VERIF_FRIEND friend struct ::boost::mqtt5::verif_probe;
+
+#else
+
+#define BOOST_MQTT5_VERIF_EVENT(...) ((void) 0)
+#define BOOST_MQTT5_VERIF_FRIEND
+
+#endif // BOOST_MQTT5_VERIF
+
+#endif // !BOOST_MQTT5_VERIF_HPP
